@@ -554,9 +554,9 @@ PROPS["C11"] = dict(
 
 PROPS["C02"] = dict(
     title="Acknowledged mode recovers from any bounded loss, duplication and reordering",
-    module="Cfdp.Props.C02c",
+    module="Cfdp.Props.C02n",
     namespace="Cfdp.Seg",
-    theorems=["C02_round_completes", "C02_gaps_answered", "Cfdp.Recv.C02_finishes_when_complete", "Cfdp.Recv.C02_never_waits_complete", "Cfdp.Recv.C02_complete_is_success", "Cfdp.Recv.C02_size_check_passes", "Cfdp.Loop.C02_no_integrity_fault", "Cfdp.Net.C02_two_party_no_integrity_fault", "Cfdp.Loop.C02_recv_completes", "Cfdp.Loop.C02_send_completes"],
+    theorems=["C02_round_completes", "C02_gaps_answered", "Cfdp.Recv.C02_finishes_when_complete", "Cfdp.Recv.C02_never_waits_complete", "Cfdp.Recv.C02_complete_is_success", "Cfdp.Recv.C02_size_check_passes", "Cfdp.Loop.C02_no_integrity_fault", "Cfdp.Net.C02_two_party_no_integrity_fault", "Cfdp.Loop.C02_recv_completes", "Cfdp.Loop.C02_send_completes", "Cfdp.Net.C02_two_party_completes"],
     engines=["daemon", "recv", "send", "net"],
     design="§6 C02",
     technique="Lean 4 proofs of the recovery steps over the segment / receiver / sender models; the composition over a lossy link is checked on two real daemons under a virtual clock with bounded fault plans",
@@ -572,6 +572,9 @@ PROPS["C02"] = dict(
                 "Finished phase with NoError / Complete / Retained (C02_recv_completes: invariant Prog - still collecting and holding everything delivered so far, or finished "
                 "successfully - carried with C01's Good and C02i's Link; the collecting case is closed by C02_never_waits_complete); and when that Finished PDU reaches the "
                 "sender, in whatever phase, it records the outcome, tells its user, and its next transmission is the ACK(Finished) with which it ends (C02_send_completes). "
+                "In the two-party model the assumption on what the link carries is discharged by the sender model: whatever an un-cancelled acknowledged sender transmits "
+                "(invariant CondOk: every EOF it prepares says NoError; with C07's Truthful / EofOk) is such a PDU, so once the link has handed the receiver the sender's "
+                "Metadata, an EOF and data covering the file, the receiver has finished successfully (C02_two_party_completes, Props/C02n.lean). "
                 "So recovery needs nothing but delivery. PARTIAL: that the retransmissions which bring that delivery about happen "
                 "whenever fewer than `limit` consecutive transmissions of any PDU are lost is a liveness statement about two transaction models, the link and the scheduler; "
                 "it is not a theorem here. It is checked on the real code: the daemon engine runs acknowledged transfers between two real daemons with every kind of fault "
